@@ -251,3 +251,53 @@ func AtomicCompareAndSwapUint32(p *uint32, o, n uint32) bool {
 	atomicPoint("atomic.CAS", p, true)
 	return atomic.CompareAndSwapUint32(p, o, n)
 }
+
+// Pool replaces sync.Pool with a deterministic LIFO free list (one of the
+// behaviours the real pool can show: it may also drop items at any time, which
+// a program must tolerate anyway). Put -> Get of the same item is a
+// happens-before edge, as in the real pool.
+type Pool struct {
+	New   func() interface{}
+	items []poolItem
+	real  sync.Pool
+}
+
+type poolItem struct {
+	v  interface{}
+	vc vclock
+}
+
+// Get takes the most recently put item, or calls New.
+func (p *Pool) Get() interface{} {
+	s := S
+	if s == nil {
+		p.real.New = p.New
+		return p.real.Get()
+	}
+	if n := len(p.items); n > 0 {
+		it := p.items[n-1]
+		p.items = p.items[:n-1]
+		if !s.aborting && s.cur != nil {
+			s.hb.acquire(s.cur, it.vc)
+		}
+		return it.v
+	}
+	if p.New != nil {
+		return p.New()
+	}
+	return nil
+}
+
+// Put returns an item to the pool.
+func (p *Pool) Put(v interface{}) {
+	s := S
+	if s == nil {
+		p.real.Put(v)
+		return
+	}
+	var vc vclock
+	if !s.aborting && s.cur != nil {
+		vc = s.hb.release(s.cur)
+	}
+	p.items = append(p.items, poolItem{v, vc})
+}
